@@ -20,6 +20,7 @@ package verifier
 
 import (
 	crypt "crypto"
+	"encoding/json"
 	"errors"
 	"fmt"
 	"strings"
@@ -47,6 +48,9 @@ var ExtractProtectedHeaders = crypto.ExtractProtectedHeaders
 func (sv *signatureVerifier) VerifySignature(credentialToVerify vc.VerifiableCredential, validateAt *time.Time) error {
 	switch credentialToVerify.Format() {
 	case vc.JSONLDCredentialProofFormat:
+		if err := sv.allFieldsDefined(credentialToVerify); err != nil {
+			return err
+		}
 		return sv.jsonldProof(credentialToVerify, credentialToVerify.Issuer.String(), validateAt)
 	case vc.JWTCredentialProofFormat:
 		return sv.jwtSignature(credentialToVerify.Raw(), credentialToVerify.Issuer.String(), validateAt)
@@ -64,12 +68,34 @@ func (sv *signatureVerifier) VerifyVPSignature(presentation vc.VerifiablePresent
 
 	switch presentation.Format() {
 	case vc.JSONLDPresentationProofFormat:
+		// the credentials inside the presentation are checked when they are verified themselves
+		if err := sv.allFieldsDefined(presentation, "verifiableCredential"); err != nil {
+			return err
+		}
 		return sv.jsonldProof(presentation, signerDID.String(), validateAt)
 	case vc.JWTPresentationProofFormat:
 		return sv.jwtSignature(presentation.Raw(), signerDID.String(), validateAt)
 	default:
 		return errors.New("unsupported presentation proof format")
 	}
+}
+
+// allFieldsDefined checks that all members of the JSON-LD document (except the given top-level members) are defined by its JSON-LD context.
+// Canonicalization silently drops members it can't expand, meaning they would not be protected by the signature.
+// The issuer performs the same check when issuing a credential.
+func (sv *signatureVerifier) allFieldsDefined(documentToVerify any, except ...string) error {
+	signedDocument, err := proof.NewSignedDocument(documentToVerify)
+	if err != nil {
+		return newVerificationError("invalid LD-JSON document: %w", err)
+	}
+	for _, key := range except {
+		delete(signedDocument, key)
+	}
+	documentJSON, _ := json.Marshal(signedDocument)
+	if err = jsonld.AllFieldsDefined(sv.jsonldManager.DocumentLoader(), documentJSON); err != nil {
+		return newVerificationError("invalid LD-JSON document: %w", err)
+	}
+	return nil
 }
 
 // jsonldProof implements the Proof Verification Algorithm: https://w3c-ccg.github.io/data-integrity-spec/#proof-verification-algorithm
